@@ -324,3 +324,5 @@ _quick("C03", "C03_textpush", "0..6 text PUSH commands (each granted at once) on
 _quick("C09", "C09_cut", "the real ReplicationClient.InitSync against a scripted leader whose answer to the first SYNC (position H) is followed by the end of the stream, before any record; the follower's SYNC on its next connection (decoded from what it writes) must ask for everything, not for the records after H", ["-witness", "2"])
 
 _quick("C15", "C15_textnum", "SET k to the decimal string of 0 / 7 / 10 / 99, then INCR k or DECRBY k 3, then GET k, on a real TextServerProtocol: answers of a plain key-value store", ["-witness", "2"], reach=[])
+
+_quick("C18", "C18_willwindow", "connections A and B announce the same client id; A leaves two queued requests (key K held by B, key K2 held by a third connection) and closes; B releases K by a registered WILL_UNLOCK when it closes (or by an UNLOCK just before): A's first request is granted while B is closed but still registered; C announces the id, K2 is released: A's second reply reaches C", ["-witness", "2"], reach=["end", "will"])
